@@ -94,7 +94,7 @@ func (g *FnGen) selectImpl(s *State, x *ssa.Select) {
 				env.vars["recv"] = TVal{term: rv, ty: Ty{sort: g.c.reg.sortOf(recvTyp[sg.Case]), gt: recvTyp[sg.Case]}}
 			}
 			v := env.eval(sg.E)
-			ng := g.fresh("G_"+sg.Ghost, g.c.specSort(gd.Sort, nil).sort)
+			ng := g.fresh("G_"+sg.Ghost, g.ghostSort(gd))
 			g.defs = append(g.defs, eq(ng, ite(eq(idx, intLit(int64(sg.Case))), v.term, g.ghost(s, sg.Ghost))))
 			s.ghosts[sg.Ghost] = ng
 		}
